@@ -187,7 +187,9 @@ func writeAll(w io.Writer, b []byte) {
 
 // ---- monitor A ----------------------------------------------------------------------------------
 
-func alreadyEncrypted(carrier string) bool { return carrier == "tcp+tls" || carrier == "wss" || carrier == "unix+tls" }
+func alreadyEncrypted(carrier string) bool {
+	return carrier == "tcp+tls" || carrier == "wss" || carrier == "unix+tls" || carrier == "stdio+tls"
+}
 
 func streamCarrier(carrier string) bool {
 	switch carrier {
@@ -197,9 +199,15 @@ func streamCarrier(carrier string) bool {
 	return false
 }
 
-func reps(carrier string) int {
+func reps(carrier string, thorough bool) int {
 	if strings.HasPrefix(carrier, "dns") {
+		if thorough {
+			return 300
+		}
 		return 80
+	}
+	if thorough {
+		return 4000
 	}
 	return 400
 }
@@ -297,10 +305,10 @@ func runA(rec *vcommon.Rec, c *caseDesc) {
 	mb := make([]byte, 2*markerLen)
 	rng.Read(mb)
 	mC, mT := newMarker(mb[:markerLen]), newMarker(mb[markerLen:])
-	n := reps(c.Carrier)
+	n := reps(c.Carrier, rec.Thorough())
 	payC, payT := mC.payload(n), mT.payload(n)
 
-	opt := e2e.Options{Carrier: c.Carrier, WithRelay: c.Carrier != "stdio", ClientSecure: c.Require, ClientInsecure: c.Insecure,
+	opt := e2e.Options{Carrier: c.Carrier, WithRelay: !strings.HasPrefix(c.Carrier, "stdio"), ClientSecure: c.Require, ClientInsecure: c.Insecure,
 		StrictVerify: true, Tag: "a"}
 	if c.Cert == "none" {
 		opt.NoServerCert = true
@@ -313,7 +321,7 @@ func runA(rec *vcommon.Rec, c *caseDesc) {
 		opt.ClientCA = pk.CA1
 	}
 	offered := c.Cert != "none" && !alreadyEncrypted(c.Carrier)
-	cell := fmt.Sprintf("%s|cert=%s|require=%v|insecure=%v", c.Carrier, c.Cert, c.Require, c.Insecure)
+	cell := fmt.Sprintf("%s|cert=%s|require=%v|insecure=%v%s", c.Carrier, c.Cert, c.Require, c.Insecure, yn(c.NoCA, "|client-without-ca", ""))
 
 	verifhook.Events()
 	verifhook.Record(true)
@@ -462,7 +470,7 @@ func runA(rec *vcommon.Rec, c *caseDesc) {
 		rec.Stat(fmt.Sprintf("A:sessions:client=%v/%s,server=%v/%s", cliSecure, cliTech, srv.Secure, srv.Tech), 1)
 	}
 	rec.Seen("A:outcome", cell+" -> "+outcome)
-	rec.Case(key, haveWire && (c2s.rawBytes > 0 || !established) || c.Carrier == "stdio")
+	rec.Case(key, haveWire && (c2s.rawBytes > 0 || !established) || strings.HasPrefix(c.Carrier, "stdio"))
 	rec.Sample(map[string]interface{}{"monitor": "A", "cell": cell, "outcome": outcome, "wire_bytes": c2s.rawBytes + s2c.rawBytes, "marker_in_clear": clear})
 
 	// ---- oracle -------------------------------------------------------------------------------
@@ -534,7 +542,7 @@ func runA(rec *vcommon.Rec, c *caseDesc) {
 }
 
 func aCases(rec *vcommon.Rec) []*caseDesc {
-	carriers := []string{"tcp", "unix", "ws", "udp", "dns", "tcp+tls", "wss", "stdio", "udp+secret"}
+	carriers := []string{"tcp", "unix", "ws", "udp", "dns", "tcp+tls", "unix+tls", "wss", "stdio", "stdio+tls", "udp+secret"}
 	if v := os.Getenv("VERIF_CARRIERS"); v != "" {
 		carriers = strings.Split(v, ",")
 	}
@@ -560,7 +568,7 @@ func aCases(rec *vcommon.Rec) []*caseDesc {
 			rng := vcommon.NewRand(rec.Seed(), "c04/badcert/"+ca)
 			bad = []string{bad[rng.Intn(3)]}
 		}
-		if ca == "stdio" || ca == "udp+secret" {
+		if strings.HasPrefix(ca, "stdio") || ca == "udp+secret" {
 			continue
 		}
 		for _, ce := range bad {
